@@ -192,6 +192,21 @@ def coro_is_finished(coro: Suspendable) -> bool:
     return coro_get_frame(coro) is None
 
 
+def _future_unblock(value: Any) -> bool:
+    """
+    `Future.__await__()` sets the future's `_asyncio_future_blocking` flag just
+    before it yields the future, and the `Task` which receives it clears the
+    flag again.  When the yielded future is received by something other than a
+    `Task` the flag must be cleared here: left set, the next `await` of that
+    future, by anyone, fails with "await wasn't used with future".
+    Returns `True` if the flag was set (and was cleared).
+    """
+    if getattr(value, "_asyncio_future_blocking", None) is True:
+        value._asyncio_future_blocking = False
+        return True
+    return False
+
+
 class CoroStart(Awaitable[T_co]):
     """
     A class to encapsulate the state of a coroutine which is manually started
@@ -201,7 +216,7 @@ class CoroStart(Awaitable[T_co]):
     `context`: A context object to run the coroutine in
     """
 
-    __slots__ = ["coro", "context", "start_result"]
+    __slots__ = ["coro", "context", "start_result", "_blocking"]
 
     def __init__(
         self,
@@ -212,6 +227,7 @@ class CoroStart(Awaitable[T_co]):
         self.coro = coro
         self.context = context
         self.start_result: Optional[Tuple[Any, Optional[BaseException]]] = self._start()
+        self._capture()
 
     def _start(self) -> Tuple[Any, Optional[BaseException]]:
         """
@@ -228,6 +244,16 @@ class CoroStart(Awaitable[T_co]):
         except BaseException as exception:
             # Coroutine returned without blocking
             return (None, exception)
+
+    def _capture(self) -> None:
+        """
+        The coroutine has been run to a suspension point and what it yielded is
+        held in `start_result` until `__await__()` passes it on.  If that is a
+        Future which expects to be received by a Task, take it out of that state
+        for as long as we hold it, so that others can await it in the meantime.
+        """
+        assert self.start_result is not None
+        self._blocking = _future_unblock(self.start_result[0])
 
     def __await__(self) -> Generator[Any, Any, T_co]:
         """
@@ -246,6 +272,12 @@ class CoroStart(Awaitable[T_co]):
             if isinstance(exc, StopIteration):
                 return cast(T_co, exc.value)
             raise exc
+
+        # The Task which is about to receive a captured Future must find it in
+        # the state in which `Future.__await__()` yielded it.
+        if self._blocking:
+            self._blocking = False
+            out_value._asyncio_future_blocking = True
 
         # yield up the initial future from `coro_start`.
         # This is similar to how `yield from` is defined (see pep-380)
@@ -304,6 +336,7 @@ class CoroStart(Awaitable[T_co]):
             ), None
         except BaseException as exception:
             self.start_result = (None, exception)
+        self._capture()
         return await self
 
     @overload
@@ -325,9 +358,12 @@ class CoroStart(Awaitable[T_co]):
         value = exc if isinstance(exc, BaseException) else exc()
         for i in range(tries):
             try:
-                self.coro.throw(type(value), value)
+                out_value = self.coro.throw(type(value), value)
             except StopIteration as err:
                 return cast(T_co, err.value)
+            # the coroutine ignored the exception and suspended again.  What it
+            # yielded is dropped: a Future must not be left waiting for a Task.
+            _future_unblock(out_value)
         else:
             raise RuntimeError(f"coroutine ignored {type(value).__name__}")
 
